@@ -774,12 +774,12 @@ def job_analyze(job):
                                 raise
                             except Exception as ex:
                                 ao[kind][str(k)] = [{"undef": f"{type(ex).__name__}: {str(ex)[:100]}"} for pt in points]
+                    cms = [get_moment_given_termination(monom ** j, solvers, rec_builder, cli_args, program)[0] for j in (1, 2, 3, 4)]
                     for pt in points:
                         rows = []
                         for nn in (150, 300):
                             row = []
-                            for j in (1, 2, 3, 4):
-                                cmj, _ = get_moment_given_termination(monom ** j, solvers, rec_builder, cli_args, program)
+                            for cmj in cms:
                                 v = eval_closed_form(cmj, pt, nn)
                                 row.append(v.get("q") or v.get("approx"))
                             rows.append(row)
